@@ -19,3 +19,4 @@ def check(run):
     r4 = "C08-deferred"
     run.rule(r4, "deferred ids: a base-id list shared by several registration records of a class is resolved once (its own flag is tested), however many records name it", floor=3)
     crules.deferred_rules(run, r4, r4, r4, ast)
+    crules.mark_rules(run, r2, ast)
